@@ -500,19 +500,32 @@ func ruleC08VerifyBeforeUse(c *Ctx) {
 				c.unresolved("callback positions in call of recovery.Index at %s", c.pos(cs.Call.Pos()))
 				continue
 			}
-			vlit, _ := ast.Unparen(cs.Call.Args[vi]).(*ast.FuncLit)
-			dlit, _ := ast.Unparen(cs.Call.Args[di]).(*ast.FuncLit)
-			if vlit == nil || dlit == nil {
-				c.undecided(rule, f, construct, cs.Call.Pos(), "verifier/decrypt argument is not a function literal; cannot decide what it does")
+			// callbacks are function literals or references to repository functions
+			resolveFn := func(e ast.Expr) *FuncInfo {
+				e = ast.Unparen(e)
+				if lit, ok := e.(*ast.FuncLit); ok {
+					return c.byLit[lit]
+				}
+				if fn, ok := objOfIdentOrSel(f.Pkg.TypesInfo, e).(*types.Func); ok {
+					return c.byObj[fn]
+				}
+				if v, ok := objOfIdent(f.Pkg.TypesInfo, e).(*types.Var); ok {
+					return c.litOfVar[v]
+				}
+				return nil
+			}
+			vf, df := resolveFn(cs.Call.Args[vi]), resolveFn(cs.Call.Args[di])
+			if vf == nil || df == nil {
+				c.undecided(rule, f, construct, cs.Call.Pos(), "verifier/decrypt argument is neither a function literal nor a repository function; cannot decide what it does")
 				continue
 			}
-			vf, df := c.byLit[vlit], c.byLit[dlit]
+			dlit := df.Lit
 			vinfo := vf.Pkg.TypesInfo
 			// (A) real verifier: every return is the result of signature.VerifyHeader on its own first parameter,
 			//     or nil only after its success
 			var hdrParam types.Object
-			if len(vlit.Type.Params.List) > 0 && len(vlit.Type.Params.List[0].Names) > 0 {
-				hdrParam = vinfo.Defs[vlit.Type.Params.List[0].Names[0]]
+			if pl := vf.Type().Params.List; len(pl) > 0 && len(pl[0].Names) > 0 {
+				hdrParam = vinfo.Defs[pl[0].Names[0]]
 			}
 			callsVH := false
 			for _, vcs := range vf.calls {
@@ -546,8 +559,12 @@ func ruleC08VerifyBeforeUse(c *Ctx) {
 			// (B) write-path exemption: decrypt callback replaces *hdr from the operation's own snapshot on every nil return
 			dinfo := df.Pkg.TypesInfo
 			var dHdr types.Object
-			if len(dlit.Type.Params.List) > 0 && len(dlit.Type.Params.List[0].Names) > 0 {
-				dHdr = dinfo.Defs[dlit.Type.Params.List[0].Names[0]]
+			if pl := df.Type().Params.List; len(pl) > 0 && len(pl[0].Names) > 0 {
+				dHdr = dinfo.Defs[pl[0].Names[0]]
+			}
+			if dlit == nil {
+				c.bad(rule, f, construct, cs.Call.Pos(), "verification is skipped, and the decrypt callback is not a closure over the operation's own header snapshot: headers read back from the tape reach the index unverified")
+				continue
 			}
 			dfl := c.flow(df)
 			isOverwrite := func(n ast.Node) bool {
